@@ -23,7 +23,8 @@ LEVEL = "exploration"
 ENGINE = "core"
 TECHNIQUE = "runtime monitoring: every formatter call on hostile events must return text and never raise"
 RULE = ("random events from a recipe grammar: format strings built from fields with attribute/index "
-        "chains, () call syntax (end and mid-path), conversions !r !s !a !x, valid/invalid/nested specs, "
+        "chains, () call syntax (end and mid-path), conversions !r !s !a !x, valid/invalid/nested specs (nested fields "
+        "with their own conversions, paths and a second nesting level, over hostile values), "
         "malformed braces, then char-level mutation; str / utf-8 bytes / invalid-utf-8 bytes / non-text "
         "formats; values = plain data or hostile objects whose str/repr/format/getattr/getitem/call "
         "raise (17 exception types incl. one whose own str raises) or return non-text; odd "
@@ -34,7 +35,8 @@ ASSUMPTIONS = ["trusted base: the recipe->object builder of this module (hostile
                "BaseException subclasses outside Exception are never raised by generated objects (by design)"]
 SHARDS = {"quick": 4, "thorough": 16}
 FLOORS = {"calls_returned_text": 20000, "events_hostile": 2000, "hostile_ops_triggered": 2000,
-          "fallback_texts": 500, "legacy_calls": 1000, "events_with_failure": 300}
+          "fallback_texts": 500, "legacy_calls": 1000, "events_with_failure": 300,
+          "nested_spec_fields_on_hostile_values": 300, "conversions_on_hostile_repr_or_str": 300}
 READY = True
 
 EXC = ["ValueError", "TypeError", "KeyError", "AttributeError", "IndexError", "RuntimeError",
@@ -245,7 +247,9 @@ NAMES = ["a", "b", "obj", "w", "p", "n", "log_format", "log_level", "log_time", 
 PATHS = [".attr", ".x", "[0]", "[k]", "[attr]", "()", ".attr()", ".x()", "[-1]", ".", "[", "[]", ".()", "()()", "..a", "[0", ".real", ".__class__"]
 CONVS = ["", "", "", "!r", "!s", "!a", "!x", "!", "!rr", "!R"]
 SPECS = ["", "", "", ":>10", ":05d", ":.2f", ":{w}", ":{w}.{p}", ":x", ":%Y", ":zz", ":{missing}", ":{a.b}", ":>{w}{w}",
-         ":{{}}", ":{a!r}", ":{obj()}", ":{", ":}", ":^{w}s", ":,", ":{w:{p}}", ":é", ":!r", "::", ":.{p}f"]
+         ":{{}}", ":{a!r}", ":{obj()}", ":{", ":}", ":^{w}s", ":,", ":{w:{p}}", ":é", ":!r", "::", ":.{p}f",
+         # nested fields that reference (possibly hostile) values, with conversions, paths and a second nesting level
+         ":{b!s}", ":{obj!a}", ":{a!r:>{w}}", ":{b:{a}}", ":{obj.attr!r}", ":>{a[0]!s}", ":{n!r}{b!s}", ":{a!x}", ":{b!r}.{obj!s}", ":{kéy!a}"]
 LITS = ["", " ", "text ", "{{", "}}", "{", "}", "%s", "%(a)s", "\n", "é中", "}{", "{}", "{0}", "{!r}", "{:}", "\x00", "{{{", "}}}"]
 
 
@@ -255,7 +259,14 @@ def g_field(rng):
     return "{" + name + path + rng.choice(CONVS) + rng.choice(SPECS) + "}"
 
 
+FOCUSED = ["{a!r}", "{b!s:>{w}}", "{obj!a}", "{a:{b}}", "{a!r:{b!r}}", "x {kéy!s} y", "{n!r:{obj!s}}", "{a!s}{b!r}{obj!a}",
+           "{b:{a!r}}", "{obj.attr!r:{w}}", "{a[0]!s:{b!s}}", "{w:{a}}", "{w!r:{obj}}", "{a!a:{w}.{p}}", "{b:{a:{w}}}"]
+
+
 def g_format(rng):
+    if rng.random() < 0.15:
+        # an otherwise well-formed format, so that the conversion / nested field on the (often hostile) value is reached
+        return rng.choice(["", "text "]) + rng.choice(FOCUSED)
     parts = []
     for _ in range(rng.choice([0, 1, 1, 2, 2, 3, 5])):
         parts.append(rng.choice(LITS))
@@ -393,6 +404,29 @@ def g_legacy(rng):
     fields.append([["str", "system"], rng.choice([["str", "-"], g_hostile(rng)])])
     rng.shuffle(fields)
     return {"fields": fields}
+
+
+import re
+
+_NESTED = re.compile(r":[^{}]*\{([A-Za-z_é]+)[^{}]*?(?:!([rsa]))?[:}]")
+_CONV = re.compile(r"\{([A-Za-z_é]+)[^{}!:]*!([rsa])")
+
+
+def hostile_field_stats(ctx, ev):
+    """Counters for the family 'nested format fields / conversion flags on hostile values'."""
+    vals = {}
+    for k, v in ev["fields"]:
+        if k[0] == "str":
+            vals[k[1]] = v
+    text = ev["text"]
+    for name, conv in _NESTED.findall(text):
+        v = vals.get(name)
+        if v is not None and v[0] == "H":
+            ctx.count("nested_spec_fields_on_hostile_values")
+    for name, conv in _CONV.findall(text):
+        v = vals.get(name)
+        if v is not None and v[0] == "H" and ({"r": "repr", "a": "repr", "s": "str"}[conv] in v[1]):
+            ctx.count("conversions_on_hostile_repr_or_str")
 
 
 def is_hostile_recipe(r):
@@ -605,6 +639,8 @@ def run(ctx):
             ctx.distinct((ev["fields"], ev["flatten"]))
         if "failure" in ev["tags"]:
             ctx.count("events_with_failure")
+        if "fmt-str" in ev["tags"] or "fmt-bytes" in ev["tags"]:
+            hostile_field_stats(ctx, ev)
         check_event(ctx, case, calls)
         ctx.evaluated(len(calls))
         if i % 4 == 0:
